@@ -76,9 +76,12 @@ def build(case):
         cfg['ping'] = False
     if sub == 'c06':
         cfg['malformed_acks'] = True
-        cfg['cb_raise'] = 0
+        cfg['raise_by_content'] = True
+    if sub in ('c05', 'c09'):
+        cfg['raise_by_content'] = True
     if sub == 'c11':
         cfg['growth'] = False
+        cfg['raise_by_content'] = True
         for life in sc['lives']:
             if life['end'] in ('sever_halfopen', 'ping_timeout',
                                'sdisc_ping_expired', 'emit_ping_expired'):
